@@ -104,6 +104,7 @@ pub fn run_session(bin: &PathBuf, mode: &Mode, roots: &[History], seed: u64, sid
         }
     };
     let mut go_count = 0u64;
+    let mut panics_seen = 0usize;
     'outer: for _step in 0..steps {
         let special = rng.chance(1, 6);
         let hist = if special { &roots[rng.below(7.min(roots.len() as u64)) as usize] } else { &roots[rng.below(roots.len() as u64) as usize] };
@@ -157,6 +158,18 @@ pub fn run_session(bin: &PathBuf, mode: &Mode, roots: &[History], seed: u64, sid
                             acc.inconclusive.push(format!("watchdog: no readyok after '{}' on {}", g.args, cur.to_fen()));
                         }
                         break 'outer;
+                    }
+                    // a panic of the detached search thread does not cost the answer; it is not a
+                    // C03 refuter but it is recorded with its root so that C07 can replay it
+                    let err_now = s.eng.stderr_text();
+                    let n_panics = err_now.matches("panicked at").count();
+                    if n_panics > panics_seen {
+                        panics_seen = n_panics;
+                        acc.count("go_with_search_thread_panic_handed_to_C07", 1);
+                        let msg = err_now.lines().rev().filter(|l| l.contains("panicked at") || l.contains("index out") || l.contains("overflow") || l.contains("called `")).take(2).collect::<Vec<_>>().join(" | ");
+                        if acc.samples.len() < 6 {
+                            acc.samples.push(json!({"search_thread_panic": msg, "root": cur.to_fen(), "go": g.args, "chain_index": ci, "position_command": truncate(&hist.command(), 300), "mode": mode.name}));
+                        }
                     }
                     if g.n_bestmove_lines != 1 {
                         acc.violation(format!("C03|count|{}", tag), format!("{} bestmove lines for one '{}' on {}", g.n_bestmove_lines, g.args, cur.to_fen()), case(&s));
